@@ -65,28 +65,15 @@ def run(R, env):
         ok, off = arm_guarded(prog, dctx, arm, Guard("trader", boolean=trader), env.depth, found)
         R.ob("C13.R1", v + ":trader-only", ok, "swap succeeds for a sender that is not the configured trader: %s" % (off,), fn=hk, found=found)
 
-        def nonempty(t):
-            if t[0] == "call" and t[1] in ("core::slice::is_empty", "std::vec::Vec::is_empty") and routes(t[2][0]):
-                return False
-            return None
-
-        found = []
-        ok, off = arm_guarded(prog, dctx, arm, Guard("non-empty", boolean=nonempty), env.depth, found)
-        R.ob("C13.R1", v + ":empty-route-rejected", ok, "swap succeeds with an empty route: %s" % (off,), fn=hk, found=found)
+        # world: the route has length 0 (decides is_empty(), len() comparisons and slice patterns alike)
+        w0 = h.assume_len(routes, 0).settle()
+        R.worlds += 1
+        from engine.analysis import success_exits
+        succ0 = success_exits(w0)
+        R.ob("C13.R1", v + ":empty-route-rejected", not succ0, "swap succeeds with an empty route: %s" % [w0.body.loc(e["bb"]) for e in succ0], fn=hk)
 
         def allowed(t):
-            if t[0] != "call" or not t[1].endswith("Iterator::any"):
-                return None
-            if not cfg(t[2][0], "allowed_swap_routes"):
-                return None
-            res = closure_result(prog, t[2][1], params={2: ("elem", "allowed")})
-            if res is None or res[0] != "call" or res[1] not in EQ:
-                return None
-            a, b = res[2]
-            for x, y in ((a, b), (b, a)):
-                if x == ("elem", "allowed") and routes(y):
-                    return EQ[res[1]]
-            return None
+            return membership(prog, t, lambda c_: cfg(c_, "allowed_swap_routes"), routes)
 
         found = []
         ok, off = arm_guarded(prog, dctx, arm, Guard("allow-listed", boolean=allowed), env.depth, found)
@@ -95,16 +82,34 @@ def run(R, env):
         which, fld = S["end"]
         coin = lambda t, S=S, v=v: msg_field(t, v, S["coin"])
 
+        def hop_at(hop, which):
+            """hop = routes[0] / routes.first() (first) or routes.last() / routes[len-1] (last), in any spelling;
+            for `last` a merge with routes[0] (the one-element arm of a slice pattern) is the same element"""
+            def one(x):
+                if x[0] == "call" and x[1] == "std::ops::Index::index" and routes(x[2][0]) and const_int(x[2][1]) is not None:
+                    return "first" if const_int(x[2][1]) == 0 else None
+                if x[0] == "index" and routes(x[1]) and const_int(x[2]) is not None:
+                    return "first" if const_int(x[2]) == 0 else ("last" if const_int(x[2]) == -1 else None)
+                if x[0] == "payload":
+                    c_ = shared.unwrap_payload(x)
+                    if c_[0] == "call" and c_[1].split("::")[-1] in ("first", "last") and "slice" in c_[1] and routes(c_[2][0]):
+                        return c_[1].split("::")[-1]
+                return None
+            kinds = [one(a) for a in (hop[1] if hop[0] == "phi" else (hop,))]
+            if which == "first":
+                return all(k == "first" for k in kinds)
+            return "last" in kinds and all(k in ("last", "first") for k in kinds)
+
         def endpoint(t):
             if t[0] == "call" and t[1] in EQ:
+                from engine.analysis import forms
                 a, b = t[2]
                 for x, y in ((a, b), (b, a)):
-                    if y[0] == "field" and y[2] == "denom" and coin(y[1]) and x[0] == "field" and x[2] == fld:
-                        hop = x[1]
-                        if which == "first" and hop[0] == "call" and hop[1] == "std::ops::Index::index" and routes(hop[2][0]) and const_int(hop[2][1]) == 0:
-                            return EQ[t[1]]
-                        if which == "last" and hop[0] == "payload" and shared.unwrap_payload(hop)[0] == "call" and shared.unwrap_payload(hop)[1] == "core::slice::last" and routes(shared.unwrap_payload(hop)[2][0]):
-                            return EQ[t[1]]
+                    if y[0] == "field" and y[2] == "denom" and coin(y[1]):
+                        for xf in forms(prog, x, 3):
+                            alts_ = xf[1] if xf[0] == "phi" else (xf,)
+                            if all(a_[0] == "field" and a_[2] == fld for a_ in alts_) and hop_at(("phi", tuple(a_[1] for a_ in alts_)) if len(alts_) > 1 else alts_[0][1], which):
+                                return EQ[t[1]]
             return None
 
         found = []
@@ -121,9 +126,22 @@ def run(R, env):
             if rt is not None and rt[0] == "call" and rt[1].endswith("Iterator::collect") and rt[2][0][0] == "call" and rt[2][0][1].endswith("Iterator::map") and routes(rt[2][0][2][0]):
                 res = closure_result(prog, rt[2][0][2][1], params={2: ("hop",)})
                 goodr = res is not None and res[0] == "agg" and res[1].endswith(S["route"]) and agg_field(res, "pool_id") == ("field", ("hop",), "pool_id") and agg_field(res, S["hop_field"]) == ("field", ("hop",), S["hop_field"]) and len(res[3]) == 2
+            elif rt is not None:
+                # loop form: every hop aggregate that flows into the vector is built, field by field,
+                # from the element read by advancing an iterator over the validated routes themselves
+                hops_ = [s_ for s_ in subterms(rt) if s_[0] == "agg" and s_[1].endswith(S["route"])]
+                el = lambda x: is_next_elem(x, routes)
+                goodr = bool(hops_) and all(len(a_[3]) == 2 and all((agg_field(a_, f_) or ("none",))[0] == "field" and agg_field(a_, f_)[2] == f_ and el(agg_field(a_, f_)[1]) for f_ in ("pool_id", S["hop_field"])) for a_ in hops_)
+                pushes = [s_ for s_ in subterms(rt) if s_[0] == "mut" and s_[2] == "std::vec::Vec::push"]
+                goodr = goodr and bool(pushes) and all(p_[3][0] in hops_ for p_ in pushes)
             R.ob("C13.R3", v + ":routes-reproduced", goodr, "message routes = %s; expected map over the validated routes of {pool_id, %s}" % (fmt(rt or ("none",))[:160], S["hop_field"]), loc=loc, fn=hk)
-            amt, den = shared.coin_parts(agg_field(t, S["coin"]) or ("none",))
-            goodc = amt is not None and den is not None and amt[0] == "field" and amt[2] == "amount" and coin(amt[1]) and den[0] == "field" and den[2] == "denom" and coin(den[1])
+            from engine.analysis import forms
+            goodc = False
+            for cf in forms(prog, agg_field(t, S["coin"]) or ("none",), 2):
+                amt, den = shared.coin_parts(cf)
+                goodc = amt is not None and den is not None and amt[0] == "field" and amt[2] == "amount" and coin(amt[1]) and den[0] == "field" and den[2] == "denom" and coin(den[1])
+                if goodc:
+                    break
             R.ob("C13.R3", v + ":coin-reproduced", goodc, "message coin = (%s, %s)" % (fmt(den or ("none",))[:60], fmt(amt or ("none",))[:60]), loc=loc, fn=hk)
             lim = agg_field(t, S["limit"])
             R.ob("C13.R3", v + ":limit-reproduced", lim is not None and msg_field(lim, v, S["limit"]), "message limit = %s" % fmt(lim or ("none",))[:80], loc=loc, fn=hk)
